@@ -341,6 +341,7 @@ def check_pair(pa, pb, K):
         if not non_interfering(dag1, dag2):
             continue
         ex = Explorer(timeout_ms=1500, max_paths=120, max_decisions=250, wall_s=20)
+        ex.label = "%s + %s" % (pa.get("name"), pb.get("name"))
         res = ex.explore(semantic_harness(pa, pb, dag1, dag2, fused, K))
         st.add(ex.stats)
         paths += ex.stats.paths
